@@ -170,6 +170,9 @@ def explore_subtree(run_fn, prefix, p_bound, r_bound, stats, max_violations=20, 
             v.setdefault("choices", ch.choices())
             if len(stats.violations) < max_violations or not any(x["fingerprint"] == v["fingerprint"] for x in stats.violations):
                 stats.violations.append(v)
+        if res.get("fatal"):
+            stats.extra["subtrees_abandoned_after_fatal_outcome"] = stats.extra.get("subtrees_abandoned_after_fatal_outcome", 0) + 1
+            break      # e.g. a spinning thread: every further schedule of this unit would cost a wall-clock timeout
         for c in children(ch, p_bound, r_bound, len(pref)):
             stack.append(c)
     return stats
